@@ -162,7 +162,7 @@ def _resolve_types(node, types):
                     n[key] = types[v]
             if "inputs" in n and isinstance(n["inputs"], list):
                 n["inputs"] = [types[i] if isinstance(i, int) else i for i in n["inputs"]]
-            for key in ("path", "res", "ovl"):
+            for key in ("path", "res", "ovl", "next_fn", "into_iter_fn"):
                 v = n.get(key)
                 if isinstance(v, str):
                     n[key] = norm_path(v)
